@@ -1,0 +1,174 @@
+//! Verification hook (feature `verif-hooks`): a read-only snapshot of the broker's internal map
+//! sizes and cross-reference facts. It only reports; it changes no behavior.
+
+use super::Broker;
+use std::collections::HashSet;
+
+/// Sizes of the broker's internal maps and a list of cross-reference inconsistencies.
+#[derive(Debug, Clone, Default, PartialEq, Eq)]
+pub struct VerifSnapshot {
+    /// Number of connections.
+    pub conns: usize,
+    /// Number of entries in the object map.
+    pub objs: usize,
+    /// Number of entries in the object cookie map.
+    pub obj_uuids: usize,
+    /// Number of entries in the service map.
+    pub svcs: usize,
+    /// Number of entries in the service cookie map.
+    pub svc_uuids: usize,
+    /// Number of pending function calls.
+    pub function_calls: usize,
+    /// Number of channels.
+    pub channels: usize,
+    /// Number of bus listeners.
+    pub bus_listeners: usize,
+    /// Facts that must never hold: dangling owners and mismatching indices.
+    pub inconsistencies: Vec<String>,
+    /// Subscription entries of live connections that name destroyed services.
+    pub stale_subscriptions: usize,
+}
+
+impl Broker {
+    pub(crate) fn verif_snapshot(&self) -> VerifSnapshot {
+        let mut bad = Vec::new();
+
+        for (uuid, obj) in &self.objs {
+            if !self.conns.contains_key(obj.conn_id()) {
+                bad.push(format!("object {uuid:?} is owned by a missing connection"));
+            }
+
+            if self.obj_uuids.get(&obj.cookie()) != Some(uuid) {
+                bad.push(format!("object {uuid:?} is missing from the cookie map"));
+            }
+
+            for svc_cookie in obj.services() {
+                if !self.svc_uuids.contains_key(&svc_cookie) {
+                    bad.push(format!("object {uuid:?} lists unknown service {svc_cookie:?}"));
+                }
+            }
+        }
+
+        for (cookie, uuid) in &self.obj_uuids {
+            if self.objs.get(uuid).map(|o| o.cookie()) != Some(*cookie) {
+                bad.push(format!("object cookie {cookie:?} names a missing object"));
+            }
+        }
+
+        for (cookie, (obj_id, svc_uuid, _)) in &self.svc_uuids {
+            match self.svcs.get(&(obj_id.uuid, *svc_uuid)) {
+                Some(svc) if svc.cookie() == *cookie => {}
+                _ => bad.push(format!("service cookie {cookie:?} names a missing service")),
+            }
+
+            if !self.objs.contains_key(&obj_id.uuid) {
+                bad.push(format!("service {cookie:?} belongs to a missing object"));
+            }
+        }
+
+        for ((obj_uuid, svc_uuid), svc) in &self.svcs {
+            if !self.svc_uuids.contains_key(&svc.cookie()) {
+                bad.push(format!(
+                    "service {obj_uuid:?}/{svc_uuid:?} is missing from the cookie map"
+                ));
+            }
+
+            for serial in svc.function_calls() {
+                if !self.function_calls.verif_iter().any(|(s, _)| s == serial) {
+                    bad.push(format!("service {svc_uuid:?} lists unknown call {serial}"));
+                }
+            }
+        }
+
+        let mut num_calls = 0;
+        for (serial, call) in self.function_calls.verif_iter() {
+            num_calls += 1;
+
+            if !self.svcs.contains_key(&(call.callee_obj, call.callee_svc)) {
+                bad.push(format!("pending call {serial} names a missing service"));
+            }
+        }
+
+        for (cookie, channel) in &self.channels {
+            let (sender, receiver) = channel.verif_owners();
+
+            if let Some(owner) = sender {
+                match self.conns.get(owner) {
+                    Some(conn) if conn.senders().any(|c| c == *cookie) => {}
+                    Some(_) => bad.push(format!("sender of {cookie:?} is not listed by its owner")),
+                    None => bad.push(format!("sender of {cookie:?} has a missing owner")),
+                }
+            }
+
+            if let Some(owner) = receiver {
+                match self.conns.get(owner) {
+                    Some(conn) if conn.receivers().any(|c| c == *cookie) => {}
+                    Some(_) => {
+                        bad.push(format!("receiver of {cookie:?} is not listed by its owner"))
+                    }
+                    None => bad.push(format!("receiver of {cookie:?} has a missing owner")),
+                }
+            }
+
+            if sender.is_none() && receiver.is_none() {
+                bad.push(format!("channel {cookie:?} has no claimed end"));
+            }
+        }
+
+        for (cookie, listener) in &self.bus_listeners {
+            match self.conns.get(listener.conn_id()) {
+                Some(conn) if conn.bus_listeners().any(|c| c == *cookie) => {}
+                Some(_) => bad.push(format!("listener {cookie:?} is not listed by its owner")),
+                None => bad.push(format!("listener {cookie:?} has a missing owner")),
+            }
+        }
+
+        let mut stale = 0;
+        for (id, conn) in &self.conns {
+            for cookie in conn.objects() {
+                if !self.obj_uuids.contains_key(&cookie) {
+                    bad.push(format!("connection {id:?} lists missing object {cookie:?}"));
+                }
+            }
+
+            for cookie in conn.senders().chain(conn.receivers()) {
+                if !self.channels.contains_key(&cookie) {
+                    bad.push(format!("connection {id:?} lists missing channel {cookie:?}"));
+                }
+            }
+
+            for cookie in conn.bus_listeners() {
+                if !self.bus_listeners.contains_key(&cookie) {
+                    bad.push(format!("connection {id:?} lists missing listener {cookie:?}"));
+                }
+            }
+
+            let subscribed: HashSet<_> = conn
+                .event_subscriptions()
+                .map(|(cookie, _)| cookie)
+                .chain(conn.all_event_subscriptions())
+                .chain(conn.subscriptions())
+                .collect();
+
+            stale += subscribed
+                .into_iter()
+                .filter(|cookie| !self.svc_uuids.contains_key(cookie))
+                .count();
+        }
+
+        bad.sort();
+
+        VerifSnapshot {
+            conns: self.conns.len(),
+            objs: self.objs.len(),
+            obj_uuids: self.obj_uuids.len(),
+            svcs: self.svcs.len(),
+            svc_uuids: self.svc_uuids.len(),
+            function_calls: num_calls,
+            channels: self.channels.len(),
+            bus_listeners: self.bus_listeners.len(),
+            inconsistencies: bad,
+            stale_subscriptions: stale,
+        }
+    }
+}
